@@ -24,6 +24,16 @@ tie    : (a) tapkee_internal::is_connected called directly on explicit graphs â€
          check_connectivity on, on point sets whose requested-k graph is mostly NOT strongly connected: must not
          throw, coordinates finite; a failure is attributed to unreachability when the same call with k = N-1
          succeeds.  When the internal harness no longer compiles this stream becomes the search phase.
+         (e) wave 2: every point set of (b) also with the metric multiplied by a power of two (2^-70 .. 2^70, exact
+         in binary64) and / or supplied through a non-identity index range (begin..end over a shuffled id vector
+         into a larger point table with decoy points outside the range): same number of neighbours and same
+         neighbour sets required, and all the checks of (b), (c) on those calls too;
+         (f) wave 2, stack depth: is_connected on generated path / cycle / two-way-chain graphs with 10^6 samples
+         (driver command P, graph made from four integers) in a process whose stack limit is set explicitly to
+         8 MiB: must answer (closed form, validated against the extracted strong_b for N <= 64 on every run); an
+         abort is a VIOLATION (theorem dfs_stack_bounded: the search needs an explicit stack of <= N*k+1 heap
+         entries and no call-stack depth); plus a source scan: no function of connected.hpp may (transitively)
+         call itself, else "no longer shown" and the deep graphs are run at many more sizes.
 search : all 1-D integer point sets with <= 9 points from 0..12, k = 1..3, both orders, through the real
          find_neighbors, spec on its output (model-guided: sets whose exact k-graph is reachable from one end
          but not strongly connected go first); hits are confirmed on the real geodesic matrix / Isomap.
@@ -42,6 +52,11 @@ TRUSTED = [
     "hand-written model Conn_Model.v tied by differential testing of the decision and of the doubling recursion "
     "(input/output on explicit graphs and on the implementation's own lists; not a proof about the C++ text; the "
     "internal stack/visited state is not observed)",
+    "that connected.hpp is iterative (explicit std::stack, no function calling itself), i.e. that the stack bound of "
+    "theorems dfs_stack_bounded / dfs_stack_bounded_uniform is a bound on HEAP use and the call depth is constant, is "
+    "tied only by the 10^6-sample path / cycle / chain run under an explicit 8 MiB stack limit and by a textual scan "
+    "of connected.hpp for (transitively) self-calling functions and lambdas (checks/c03.py scan_recursion; a "
+    "heuristic parser, not a C++ front end)",
     "cc_dijkstra_finite rests on property C04's theorems about Dijkstra_Model.v (its own tie is C04's check); "
     "cc_from_c02 on C02's specification Knn_Spec.is_knn only",
     "the neighbour search itself is abstract in the theorems (exact k-NN lists = property C02 is a hypothesis); "
@@ -122,6 +137,90 @@ def crashed(x):
 
 def skipped(x):
     return isinstance(x, dict) and x.get("skipped", False)
+
+
+# ----------------------------------------------------------------------------- history dependence
+# Every violation found inside a stream of cases is re-run ALONE in a fresh process before it is reported.  If it
+# does not reproduce there, the failure depends on earlier calls in the same process (state that outlives a call:
+# a static / thread_local buffer, a cache): the replay then becomes the shortest sequence of driver lines that
+# reproduces it (kind "sequence", last line judged by the specification).
+STREAMS = {}
+
+
+def case_key(case):
+    return json.dumps(case, sort_keys=True, default=list)
+
+
+def remember(case, lines, n, args=()):
+    STREAMS[case_key(case)] = (lines, n, tuple(args))
+
+
+def judge_line(ctx, mexe, line, ri):
+    """True: the driver's answer `ri` to `line` violates the specification; False: it meets it; None: not judged"""
+    if skipped(ri):
+        return None
+    tok = line.split()
+    cmd = tok[0]
+    try:
+        if cmd in ("G", "H"):
+            mo = run_model(ctx, mexe, [line])[0]
+            if len(mo) != 7 or mo[3] != "1":
+                return None
+            return crashed(ri) or len(ri) != 2 or ri[1] != mo[5]
+        if cmd == "P":
+            N, k, shape = int(tok[1]), int(tok[2]), int(tok[3])
+            if N < k + 3:
+                return None
+            return crashed(ri) or len(ri) != 3 or ri[1] != deep_expected(N, k, shape)
+        if cmd in ("F", "WF"):
+            if tok[2] != "1":
+                return None
+            if crashed(ri):
+                return True
+            rows = parse_F(ri)
+            if rows is None or any(v < 0 for r in rows for v in r):
+                return True
+            so = run_model(ctx, mexe, [s_line(rows)])[0]
+            return not (so[1] == "1" and so[2] == "1" and so[3] == "1")
+    except (ValueError, IndexError):
+        return None
+    return None
+
+
+def localise_history(ctx, exe, mexe, stats, limit=3):
+    done = 0
+    for idx, (case, why) in enumerate(list(ctx._violations)):
+        rec = STREAMS.get(case_key(case)) if isinstance(case, dict) else None
+        if not rec or done >= limit:
+            continue
+        done += 1
+        lines, n, args = rec
+
+        def bad(seq):
+            r = run_impl(ctx, exe, seq, timeout=150, args=args)
+            return judge_line(ctx, mexe, seq[-1], r[-1]) is True
+        if bad([lines[n]]):
+            continue                    # reproducible in a fresh process: the case itself is the replay
+        stats["history_dependent"] += 1
+        seq, w = None, 1
+        while True:
+            cand = lines[max(0, n - w):n + 1]
+            if bad(cand):
+                seq = cand
+                break
+            if w >= n:
+                break
+            w = min(4 * w, n)
+        if seq is None:
+            ctx.note("violation not reproducible alone nor after the same preceding calls (flaky): " + why[:200])
+            continue
+        last = seq[-1]
+        pre = vlib.shrink_list(seq[:-1], lambda q: bad(q + [last]), max_steps=80) if len(seq) > 2 else seq[:-1]
+        ctx._violations[idx] = (
+            {"kind": "sequence", "lines": pre + [last], "args": list(args), "case": case},
+            why + "  [HISTORY DEPENDENT: the same call ALONE in a fresh process meets the specification; it fails "
+                  "after the %d earlier call(s) of this replay in the same process, i.e. state survives between "
+                  "calls of the library]" % len(pre))
 
 
 # ----------------------------------------------------------------------------- graphs
@@ -262,8 +361,9 @@ def eval_graphs(ctx, exe, mexe, graphs, stats, with_perm_rng=None):
     impl = run_impl(ctx, exe, lines)
     model = run_model(ctx, mexe, lines)
     perm_jobs = []
-    for (N, k, rows), ri, mo, line in zip(graphs, impl, model, lines):
+    for gi, ((N, k, rows), ri, mo, line) in enumerate(zip(graphs, impl, model, lines)):
         case = {"kind": "graph", "N": N, "k": k, "rows": rows}
+        remember(case, lines, gi)
         if len(mo) != 7 or mo[0] != "G":
             ctx.note("model could not parse: " + line[:80])
             continue
@@ -534,6 +634,7 @@ def spec_points(ctx, exe, mexe, jobs, stats, check_model=True, check_geodesics=T
     rows_of, slines, sidx = [None] * len(jobs), [], []
     for n, (j, ri) in enumerate(zip(jobs, impl)):
         case = dict(j, kind="points")
+        remember(case, lines, n)
         if skipped(ri):
             continue
         if crashed(ri):
@@ -829,6 +930,11 @@ API_METHODS = {0: "Isomap", 1: "LandmarkIsomap"}
 
 
 def a_line(j):
+    w = j.get("wide")
+    if w:
+        return "AW %d %d %d %d %d %d %d %s %s" % (
+            j["api_method"], j["method"], j["k"], j["dim"], len(j["pts"]), w["e"], len(w["table"]),
+            " ".join(map(str, w["idx"])), " ".join(str(x) for p in w["table"] for x in p[:j["dim"]]))
     return "A %d %d %d %d %d %s" % (j["api_method"], j["method"], j["k"], j["dim"], len(j["pts"]),
                                     " ".join(str(x) for p in j["pts"] for x in p[:j["dim"]]))
 
@@ -837,8 +943,9 @@ def api_ok(ri):
     return (not crashed(ri)) and ri[:3] == ["A", "ok", "0"]
 
 
-def api_jobs_from(bases, per_base=2):
-    """Isomap / Landmark Isomap jobs from point sets: the library accepts 3 <= k < N"""
+def api_jobs_from(bases, per_base=2, rng=None):
+    """Isomap / Landmark Isomap jobs from point sets: the library accepts 3 <= k < N.  With rng: every second
+    base once more through a non-identity index range with a scaled metric (command AW)."""
     jobs = []
     for i, b in enumerate(bases):
         N = len(b["pts"])
@@ -848,6 +955,10 @@ def api_jobs_from(bases, per_base=2):
         for t in range(per_base):
             jobs.append({"kind": "api", "dim": b["dim"], "pts": b["pts"], "k": k, "method": (i + t) % 3,
                          "api_method": t % 2})
+        if rng is not None and i % 2 == 0:
+            jobs.append({"kind": "api", "dim": b["dim"], "pts": b["pts"], "k": k, "method": i % 3,
+                         "api_method": (i // 2) % 2,
+                         "wide": make_wide(rng, b["pts"], b["dim"], rng.choice((-23, 0, 0, 23)), True)})
     return jobs
 
 
@@ -889,16 +1000,25 @@ def api_eval(ctx, api, mexe, jobs, stats, stop_after=None):
 
 
 def shrink_api(ctx, api, case):
-    def fails(pts):
-        if len(pts) < 5:
+    w = case.get("wide")
+
+    def job_of(items):
+        j = dict(case, pts=[a for a, _ in items])
+        if w:
+            j["wide"] = dict(w, idx=[b for _, b in items])
+        return j
+
+    def fails(items):
+        if len(items) < 5:
             return False
-        j = dict(case, pts=pts)
-        r = run_impl(ctx, api, [a_line(j), a_line(dict(j, k=len(pts) - 1))], timeout=120)
+        j = job_of(items)
+        r = run_impl(ctx, api, [a_line(j), a_line(dict(j, k=len(items) - 1))], timeout=120)
         return (not skipped(r[0])) and (not api_ok(r[0])) and api_ok(r[1])
     pts = [tuple(p) for p in case["pts"]]
-    if not fails(pts):
+    items = list(zip(pts, w["idx"] if w else range(len(pts))))
+    if not fails(items):
         return case
-    return dict(case, pts=vlib.shrink_list(pts, fails, max_steps=150))
+    return job_of(vlib.shrink_list(items, fails, max_steps=150))
 
 
 def api_search(ctx, api, mexe, stats, rng, budget):
@@ -915,7 +1035,7 @@ def api_search(ctx, api, mexe, stats, rng, budget):
         if pts is None or len(set(pts)) != len(pts):
             continue
         bases.append({"dim": dim, "pts": pts, "k": rng.choice([3, 3, 3, 4, 5])})
-    n = api_eval(ctx, api, mexe, api_jobs_from(bases), stats, stop_after=3)
+    n = api_eval(ctx, api, mexe, api_jobs_from(bases, rng=rng), stats, stop_after=3)
     if not ctx.has_violation() and mexe is not None:
         cand = [(3, pts) for pts in small_sets(max_pts=9, top=12, min_pts=5)]
         mo = run_model(ctx, mexe, [m_line("K", k, 1, pts) for k, pts in cand])
@@ -1082,7 +1202,9 @@ def deep_eval(ctx, exe, mexe, cases, stats, ladder=True):
                                       % deep_line(c))
             stats["deep_small"] += 1
     crashed_cases = []
-    for c, ri in zip(cases, res):
+    dlines = [deep_line(c) for c in cases]
+    for di, (c, ri) in enumerate(zip(cases, res)):
+        remember(c, dlines, di, args)
         if skipped(ri):
             continue
         stats["deep_runs"] += 1
@@ -1286,7 +1408,7 @@ def new_stats():
                            "geodesic_matrices", "graphs_ragged", "api_runs", "api_k_graph_not_strong",
                            "api_violations", "api_other_failures", "tied_pairs", "tied_order_dependent", "recursion_replays", "edge_set_comparisons",
                            "method_set_comparisons", "wide_scaled", "wide_index_range", "deep_runs", "deep_small",
-                           "deep_crashes")}
+                           "deep_crashes", "history_dependent")}
 
 
 def corpus_api_cases(ctx):
@@ -1422,7 +1544,7 @@ def run(ctx):
     if api is not None:
         napi = 60 if quick else 400
         n += api_eval(ctx, api, mexe, corpus_api_cases(ctx)
-                      + api_jobs_from([b for b in cb if b["tie_free"]] + bases[:napi]), stats)
+                      + api_jobs_from([b for b in cb if b["tie_free"]] + bases[:napi], rng=rng), stats)
         hist["api"] = stats["api_runs"]
         for idx, (case, why) in enumerate(list(ctx._violations[:3])):
             if case.get("kind") == "api" and len(case["pts"]) > 6:
@@ -1456,6 +1578,9 @@ def run(ctx):
                 confirm_with_isomap(ctx, case, stats)
                 break
 
+    # a failure that needs earlier calls in the same process gets the sequence of calls as its replay
+    if ctx.has_violation():
+        localise_history(ctx, exe, mexe, stats)
     # shrink the first point-set violation
     for idx, (case, why) in enumerate(list(ctx._violations[:3])):
         if case.get("kind") == "points" and "NOT strongly connected" in why and len(case["pts"]) > 6:
@@ -1483,7 +1608,12 @@ def finish(ctx, n, stats, hist, small, rnd, bases):
              "<= 9 points from 0..12, k = 1..3, both orders, model-guided order. (d) public API: Isomap / Landmark "
              "Isomap (check_connectivity on, k = max(3, min(k, N-1)), methods rotating) on the first point sets of "
              "(b) and the corpus; api_k_graph_not_strong counts those whose exact requested-k graph is not strongly "
-             "connected. Seeded by VERIF_SEED.",
+             "connected. (e) every point set of (b) additionally with all distances multiplied by 2^e, e in "
+             "{-70,-52,-23,-1,1,23,52,70}, and through a non-identity index range (shuffled ids into a larger table "
+             "with decoys), counted in wide_scaled / wide_index_range. (f) deep graphs: path / cycle / two-way chain "
+             "generated from (N, k, shape, reversed numbering): N = k+3..12, 17, 33, 64 (k = 1..3, all shapes, both "
+             "numberings; against the extracted spec) and N = 10^6 (6 graphs) under an explicit 8 MiB stack limit. "
+             "Seeded by VERIF_SEED.",
         samples=[{"N": g[0], "k": g[1], "rows": g[2]} for g in rnd[:3]] +
                 [{"dim": b["dim"], "k": b["k"], "pts": b["pts"][:10]} for b in bases[:3]],
         histogram={"generators": hist, "stats": stats},
@@ -1552,7 +1682,25 @@ def replay(ctx, case):
         t = confirm_with_isomap(ctx, dict(case, pts=pts), stats)
         if t:
             print(t)
+    elif kind == "sequence":
+        args = tuple(case.get("args", ()))
+        lines = list(case["lines"])
+        together = run_impl(ctx, exe, lines, timeout=240, args=args)
+        alone = run_impl(ctx, exe, lines[-1:], timeout=240, args=args)
+        show = lambda r: str(r["crash"])[:300] if crashed(r) else " ".join(r)[:300]
+        print("%d calls in one process; the last one: %s" % (len(lines), lines[-1][:200]))
+        print("  answer after the earlier calls: %s" % show(together[-1]))
+        print("  answer of the same call alone : %s" % show(alone[0]))
+        jt, ja = judge_line(ctx, mexe, lines[-1], together[-1]), judge_line(ctx, mexe, lines[-1], alone[0])
+        print("  violates the specification: after the earlier calls %s, alone %s" % (jt, ja))
+        if jt is True:
+            ctx.violation(case, "the last call of the sequence violates the specification (strong connectivity of the "
+                                "returned graph / the decision of is_connected)%s"
+                          % ("" if ja is True else "; alone in a fresh process it does not: state survives between calls"))
     elif kind == "deep":
+        r = run_impl(ctx, exe, [deep_line(case)], timeout=240, args=("--stack-kib", str(DEEP_STACK_KIB)))[0]
+        print("%s (stack limit %d KiB): %s" % (deep_line(case), DEEP_STACK_KIB,
+                                               str(r["crash"])[:300] if crashed(r) else " ".join(r)))
         deep_eval(ctx, exe, mexe, [case], stats, ladder=False)
     elif kind == "api":
         api = ctx.cpp("harness/c03_api.cpp", **API_BUILD)
